@@ -3,16 +3,16 @@
   run at `Float` in `driver_c09`, proved over an ordered field in `Props/C09.lean`).
 
   Mirrors (line numbers of /repo at the time of writing):
-    include/nano/core/parallel.h:296-350  pool_t::map(elements, chunksize, op)      -> `chunks`, `runChunks` (+ `asg`)
-    src/dataset/iterator.cpp:141-150,163-172  flatten_iterator_t / targets_iterator_t::loop  -> `chunks n batch`
+    include/nano/core/parallel.h:294-366  pool_t::map(elements, chunksize, op)      -> `chunks`, `runChunks` (+ `asg`)
+    src/dataset/iterator.cpp:149-180      flatten_iterator_t / targets_iterator_t::loop  -> `chunks n batch`
     include/nano/core/reduce.h:22-31      sum_reduce(accumulators, samples)         -> `sumReduce`
     src/linear/accumulator.cpp            clear / operator+= / operator/=          -> `LinAcc.zero/add/divN`
-    src/linear/util.cpp:6-22              linear::predict                           -> `predict`
-    src/linear/function.cpp:45-110        linear::function_t::do_vgrad              -> `linTerm`, `linStep`, `linearVGrad`
+    src/linear/util.cpp:6-21              linear::predict                           -> `predict`
+    src/linear/function.cpp:44-110        linear::function_t::do_vgrad              -> `linTerm`, `linStep`, `linearVGrad`
     src/gboost/accumulator.cpp            clear / operator+= / operator/= / update / vgrad -> `GbAcc.*`
-    src/gboost/function.cpp:104-140       bias_function_t::do_vgrad                 -> `biasVGrad`
-    src/gboost/function.cpp:44-96         scale_function_t::do_vgrad                -> `scaleStep`, `scaleVGrad`
-    src/gboost/function.cpp:158-190       grads_function_t::do_vgrad / gradients    -> `writeRange`, `gradsVGrad`
+    src/gboost/function.cpp:117-153       bias_function_t::do_vgrad                 -> `biasVGrad`
+    src/gboost/function.cpp:44-97         scale_function_t::do_vgrad                -> `scaleStep`, `scaleVGrad`
+    src/gboost/function.cpp:171-201       grads_function_t::do_vgrad / gradients    -> `writeRange`, `gradsVGrad`
 
   What is abstract: the loss. `L i o` / `dL i o` are the loss value and its gradient w.r.t. the outputs of the sample at
   position `i` of the iterator's sample list when the model outputs are `o` (they hide the (scaled) target `t_i`), i.e.
